@@ -84,6 +84,17 @@ def cells(tier):
         out.append(mk(PID, ('roDelete', 'roReplace'), False, 'string', perm=perm, T=T, mids=['9', '10'], may_fail=False, tag='roDelete-before-roReplace'))
     out.append(mk(PID, ('roStoryMove', 'roReplace', 'roStoryAppend'), False, 'string', perm=[3, 2, 1, 0], T=T, mids=['9', '10', '100'],
                   tag='failing-message-before-roReplace'))
+    # several versions of one story (roStorySend for the same storyID, different bodies): the highest-numbered wins in
+    # every supply order, and every version is read
+    for perm in itertools.permutations(range(3)):
+        out.append(mk(PID, ('roStorySend', 'roStorySend'), True, 'string', perm=list(perm), T=T, mids=['9', '10'], refs=[0, 0],
+                      may_fail=False, sort_objects=True, tag='versions-of-one-story'))
+    for src, perm in (('file', [2, 1, 0]), ('s3', [2, 0, 1]), ('file', [0, 2, 1])):
+        out.append(mk(PID, ('roStorySend', 'roStorySend'), True, src, perm=perm, T=T, mids=['10', '9'], refs=[1, 1],
+                      may_fail=False, tag='versions-of-one-story'))
+    for perm in ([3, 2, 1, 0], [2, 0, 3, 1], [0, 3, 1, 2], [1, 3, 2, 0]):
+        out.append(mk(PID, ('roStorySend', 'roStoryDelete', 'roStorySend'), False, 'string', perm=perm, T=T, mids=['10', '9', '100'],
+                      refs=[2, 0, 2], may_fail=False, sort_objects=True, tag='versions-of-one-story'))
     # a roReplace is ordered by its message ID like everything else
     for perm in ([3, 2, 1, 0], [1, 3, 0, 2], [0, 1, 2, 3]):
         out.append(mk(PID, ('roMetadataReplace', 'roReplace', 'roMetadataReplace'), True, 'string', perm=perm,
